@@ -17,7 +17,7 @@ RULE = ("45% wire messages built by a compressing DNS writer (names from a label
         "count fields changed, xn-- and non-ASCII labels); 20% message objects packed then unpacked (full field "
         "ranges, out-of-range fields, bad names, a few IDN names); 25% direct calls of domain_names.pack/unpack/"
         "unpack_from/unpack_from_with_compression on small label/pointer buffers; 5% decompress_from_record_data; "
-        "5% record_data_can_have_compression over 0..300 and random types. Thorough adds every buffer of length "
+        "5% record_data_can_have_compression over 0..300 and random types; 8% HISTORIES in one process: several spellings (ASCII case variants) of the same names packed one after the other, then messages using yet other spellings are round-tripped. Thorough adds every buffer of length "
         "<= 3 over a 7-byte alphabet for the name decoders. Non-trivial = at least one name label or record "
         "was decoded/encoded, or an error branch was taken; distinct by canonical JSON.")
 TRUSTED = ["Coq 8.16.1 kernel (coqc), vm_compute for case evaluation and the refutation witnesses",
@@ -187,6 +187,11 @@ def wf_name(name: str) -> bool:
     return True
 
 
+def recase(rng, name: str) -> str:
+    """another spelling of the same DNS name: ASCII letters with random case (0x20 encoding)"""
+    return "".join((c.upper() if rng.chance(0.5) else c.lower()) if c.isascii() and c.isalpha() else c for c in name)
+
+
 def gen_name(rng, bad=False):
     if bad and rng.chance(0.5):
         return rng.choice(["a..b", ".", "a.", ".a", "y" * 64, "ok." + "z" * 70, "xn--bcher-kva.com", "XN--a.b", "a.bé"] + IDN_NAMES)
@@ -217,6 +222,27 @@ def gen_msg(rng, bad=False):
             "an": [gen_rr(rng, bad) for _ in range(wt(rng, [(0, 2), (1, 4), (2, 2), (3, 1)]))],
             "ns": [gen_rr(rng, bad) for _ in range(wt(rng, [(0, 5), (1, 2)]))],
             "ar": [gen_rr(rng, bad) for _ in range(wt(rng, [(0, 5), (1, 2), (2, 1)]))]}
+
+
+def gen_history(rng):
+    """One process: pack several spellings of the same names, then round-trip messages that use yet other spellings
+    (mixed-case question after a lower-case one; mixed-case question + lower-case owner in one message)."""
+    base = [n for n in (gen_name(rng) for _ in range(2)) if n] or ["www.example.com"]
+    packs = []
+    for _ in range(rng.randint(2, 5)):
+        b = rng.choice(base)
+        packs.append(rng.choice([b.lower(), b, recase(rng, b), b.upper()]))
+    msgs = []
+    for _ in range(rng.randint(1, 2)):
+        m = gen_msg(rng, False)
+        b = rng.choice(base)
+        for q in m["q"]:
+            q["name"] = recase(rng, b)
+        for r in m["an"] + m["ns"] + m["ar"]:
+            if rng.chance(0.7):
+                r["name"] = rng.choice([b.lower(), recase(rng, b), b])
+        msgs.append(m)
+    return {"k": "hist", "packs": packs, "msgs": msgs}
 
 
 def msg_wf(m) -> bool:
@@ -265,7 +291,9 @@ def gen(rng, n, tier):
         out.append({"k": "compr", "t": t})
     for _ in range(n):
         r = rng.random()
-        if r < 0.45:
+        if r < 0.08:
+            out.append(gen_history(rng))
+        elif r < 0.45:
             odd = rng.chance(0.12)
             b, info = build_wire(rng, odd)
             tags = ["odd-labels"] if odd else []
@@ -360,6 +388,11 @@ def run_impl(case):
         if "ok" in o["p"]:
             o["back"] = attempt(lambda: msg_to_json(dns.DNSMessage.unpack(unhx(o["p"]["ok"]))))
         return o
+    if k == "hist":
+        o = {"packs": [attempt(lambda n=n: hx(domain_names.pack(n))) for n in case["packs"]], "msgs": []}
+        for m in case["msgs"]:
+            o["msgs"].append(run_impl({"k": "pk", "m": m}))
+        return o
     if k == "npack":
         return {"r": attempt(lambda: hx(domain_names.pack(case["name"])))}
     if k == "nunpack":
@@ -406,6 +439,11 @@ def coq_case(case, obs):
         return f"Unp {hexb(case['buf'])} {cres(obs['r'], cmsg, 'message')} {cres(obs.get('repacked'), hexb, 'bytes')}"
     if k == "pk":
         return f"Pk {cmsg(case['m'])} {cres(obs['p'], hexb, 'bytes')} {cres(obs.get('back'), cmsg, 'message')}"
+    if k == "hist":
+        ps = clist([f"({cname(n)}, {cres(r, hexb, 'bytes')})" for n, r in zip(case["packs"], obs["packs"])], "(name * result bytes)")
+        ms = clist([f"({cmsg(m)}, {cres(o['p'], hexb, 'bytes')}, {cres(o.get('back'), cmsg, 'message')})"
+                    for m, o in zip(case["msgs"], obs["msgs"])], "(message * result bytes * result message)")
+        return f"Hist {ps} {ms}"
     if k == "npack":
         return f"NPack {cname(case['name'])} {cres(obs['r'], hexb, 'bytes')}"
     if k == "nunpack":
@@ -475,6 +513,18 @@ def oracle(case, obs):
                 return [{"key": "rdata-pointer-lookalike-rewritten", "what": f"re-decoding changed compressible-type rdata (buf {case['buf']})"}]
             return [{"key": "reencode-roundtrip", "what": f"unpack(packed(unpack(b))) != unpack(b) (buf {case['buf']})"}]
         return []
+    if k == "hist":
+        for n, r in zip(case["packs"], obs["packs"]):
+            if wf_name(n):
+                for x in oracle({"k": "npack", "name": n}, {"r": r}):
+                    return [{"key": x["key"] + "-in-history", "what": x["what"] + f" after packing {case['packs']!r} in the same process"}]
+        for m, o in zip(case["msgs"], obs["msgs"]):
+            for x in oracle({"k": "pk", "m": m}, o):
+                if x["key"] == "rdata-pointer-lookalike-rewritten":
+                    return [x]
+                names = [q["name"] for q in m["q"]] + [r["name"] for r in m["an"] + m["ns"] + m["ar"]]
+                return [{"key": x["key"] + "-in-history", "what": x["what"] + f"; names in the message {names!r}, packed before in this process {case['packs']!r}"}]
+        return []
     if k in ("nunpack", "nunpackfrom", "nunpackc", "decomp"):
         r = obs["r"]
         if "err" in r and r["err"] != "EStruct":
@@ -522,6 +572,9 @@ def classify(case, obs):
     elif k == "pk":
         tags.append("wf" if msg_wf(case["m"]) else "not-wf")
         tags.append("pk-ok" if "ok" in obs["p"] else "pk-" + obs["p"]["err"])
+    elif k == "hist":
+        low = [n.lower() for n in case["packs"]]
+        tags.append("hist-case-variants" if len(set(low)) < len(set(case["packs"])) else "hist-no-variants")
     elif k == "compr":
         tags.append(f"compr={obs['r']}")
     else:
